@@ -366,6 +366,9 @@ def run(prop, tier, replay=None):
                 out.violation(sig, {"crystal": crystals[ci], "variant": v, "variant_index": vi, "observed": ev})
                 break
     out.notes["rejected_by_clause"] = by
+    if prop == "C03" and not replay:
+        from . import realfiles
+        realfiles.run_c03(out, tier, sd)
     out.assumptions = ["harness/findops.py rendering and projection (numpy): positions un-rendered to integers, lattice "
                        "vectors and the rotation residual computed in floating point",
                        "tolerance margins: atol/scale <= 1/32 lattice unit, jitter <= atol/50 (TLC ASSUMEs in MC_Find)"]
